@@ -88,6 +88,16 @@ def strip_cv(t):
 
 def simplify_traits(t):
     """evaluate the <type_traits> aliases that clang leaves unevaluated in function type strings"""
+    # xtl's SFINAE aliases  disable_xcomplex<E, R> / enable_xcomplex<E, R> / enable_scalar<E, R>  are R when the overload exists
+    for _ in range(4):
+        m = re.search(r'(?:xtl::)?(?:disable_xcomplex|enable_xcomplex|enable_scalar)<', t)
+        if not m:
+            break
+        i = m.end(); d = 1; j = i
+        while j < len(t) and d:
+            d += t[j] == '<'; d -= t[j] == '>'; j += 1
+        parts = split_top(t[i:j - 1])
+        t = t[:m.start()] + (parts[1].strip() if len(parts) > 1 else 'void') + t[j:]
     for _ in range(12):
         m = None
         for m in re.finditer(r'(?:typename )?std::(add_lvalue_reference_t|add_rvalue_reference_t|add_const_t|decay_t|remove_reference_t|remove_const_t|remove_cv_t|add_pointer_t|remove_pointer_t)<', t):
@@ -1721,6 +1731,8 @@ class Lower:
                 return '(%s %s %s)' % (a, op, b)
             if op in ('.*', '->*'):
                 raise Unsupported('pointer to member')
+            if op in ('+', '-') and self.uf_mul == 'floatall' and self.ctype(dq(n['type'])) == 'float':
+                return 'XV_F%s32(%s, %s)' % ('ADD' if op == '+' else 'SUB', self.rv(l), self.rv(r))
             if op in ('*', '/', '%') and self.uf_mul:
                 ct = self.ctype(dq(n['type']))
                 nm = {'*': 'MUL', '/': 'DIV', '%': 'MOD'}[op]
@@ -1728,6 +1740,8 @@ class Lower:
                     return 'XV_U%s%d(%s, %s)' % (nm, 32 if ct == 'unsigned int' else 64, self.rv(l), self.rv(r))
                 if ct in ('int', 'long') and self.uf_mul == 'all':
                     return 'XV_S%s%d(%s, %s)' % (nm, 32 if ct == 'int' else 64, self.rv(l), self.rv(r))
+                if ct == 'float' and self.uf_mul in ('float', 'floatall') and op in ('*', '/'):
+                    return 'XV_F%s32(%s, %s)' % (nm, self.rv(l), self.rv(r))
             return '(%s %s %s)' % (self.rv(l), op, self.rv(r))
         if k == 'CompoundAssignOperator':
             l, r = n['inner']
@@ -1740,6 +1754,8 @@ class Lower:
                 return '(%s = XV_UMUL%d(%s, %s))' % (ll, 32 if ct == 'unsigned int' else 64, ll, self.rv(r))
             if op in ('*', '/', '%') and self.uf_mul == 'all' and ct in ('int', 'long') and self.ctype(comp) == ct and self.ctype(lt) == ct:
                 return '(%s = XV_S%s%d(%s, %s))' % (ll, {'*': 'MUL', '/': 'DIV', '%': 'MOD'}[op], 32 if ct == 'int' else 64, ll, self.rv(r))
+            if op in ('*', '/', '+', '-') and self.uf_mul in ('float', 'floatall') and ct == 'float' and self.ctype(comp) == ct and self.ctype(lt) == ct and (op in '*/' or self.uf_mul == 'floatall'):
+                return '(%s = XV_F%s32(%s, %s))' % (ll, {'*': 'MUL', '/': 'DIV', '+': 'ADD', '-': 'SUB'}[op], ll, self.rv(r))
             # make the usual arithmetic conversions of C++ explicit
             if self.ctype(lt) != ct or self.ctype(comp) != ct:
                 return '(%s = (%s)((%s)%s %s %s))' % (ll, ct, self.ctype(lt), ll, op, self.rv(r))
